@@ -1,5 +1,7 @@
 import PikaVerif.Model.CV
+import PikaVerif.Model.Stop
 import Driver.Util
+import Driver.StopDrv
 /-! Driver for the condition-variable model (C07): parser, acceptor run, independent monitors. -/
 namespace Driver.CVDrv
 open PikaVerif PikaVerif.CV Driver
@@ -12,23 +14,61 @@ def userLockObj : Nat := 1
     `cv.pop` / `cv.popall` must be followed immediately by the agent call of the same thread
     and are merged with it.  A spinlock event on the user-lock object is a user-lock event
     (`std::unique_lock<spinlock>` as the user lock). -/
-partial def toEvents : List Line → List (Option Ev × String) → List (Option Ev × String)
+def stopBitSet (a : Int) : Bool :=
+  let w : Nat := if a < 0 then (a + 18446744073709551616).toNat else a.toNat
+  (w / 2147483648) % 2 == 1
+
+/-- Stop-token interface (follow-up C07s): of the `stop.*` hook lines of `stop_token.cpp` only
+    those that change the abstract stop state of `Model/CV.lean` are events (see the table in
+    the model header); the lock loops (`stop.load/cas/casfail/reload/held`) and the pure
+    points are stutter, except that a registration (`mode 2`) which observes the stop bit is
+    `stSeen`.  Callback objects (`obj` of `stop.push/deq/fin`) are mapped to the thread that
+    pushed them (`own`). -/
+partial def toEvents (own : List (Nat × Nat)) : List Line → List (Option Ev × String) → List (Option Ev × String)
   | [], acc => acc.reverse
   | l :: rest, acc =>
     let t := l.tid
-    let push (e : Ev) := toEvents rest ((some e, l.raw) :: acc)
-    let bad (_ : Unit) := toEvents rest ((none, l.raw) :: acc)
+    let go := toEvents own
+    let push (e : Ev) := go rest ((some e, l.raw) :: acc)
+    let bad (_ : Unit) := go rest ((none, l.raw) :: acc)
+    let owner (o : Nat) : Option Nat := (own.find? (fun p => p.1 == o)).map (·.2)
     let merge (mk : Nat → Bool → Ev) :=
       match rest with
       | r :: rest' =>
         if r.tid == t && r.site == "ag.resume" then
-          toEvents rest' ((some (mk r.a.toNat false), l.raw ++ " + " ++ r.raw) :: acc)
+          go rest' ((some (mk r.a.toNat false), l.raw ++ " + " ++ r.raw) :: acc)
         else if r.tid == t && r.site == "ag.resume.dropped" then
-          toEvents rest' ((some (mk r.a.toNat true), l.raw ++ " + " ++ r.raw) :: acc)
+          go rest' ((some (mk r.a.toNat true), l.raw ++ " + " ++ r.raw) :: acc)
         else bad ()
       | [] => bad ()
     match l.site with
-    | "sl.lock" | "ag.yield" | "ul.lock" | "ul.spin" => toEvents rest acc
+    | "sl.lock" | "ag.yield" | "ul.lock" | "ul.spin" => go rest acc
+    | "stop.cas" | "stop.held" | "stop.rm_check" | "stop.pre_exec" | "stop.post_exec" => go rest acc
+    | "stop.load" | "stop.casfail" | "stop.reload" =>
+      if l.b == 2 && stopBitSet l.a then push (.stSeen t) else go rest acc
+    | "inv.swaitp" => push (.inv t (.swait false))
+    | "inv.stwaitp" => push (.inv t (.swait true))
+    | "cva.stop2" => push (.stop2 t (l.a != 0))
+    | "inv.stop" => push (.inv t .stop)
+    | "cva.stop0" => push (.stop0 t (l.a != 0))
+    | "cva.stop1" => push (.stop1 t (l.a != 0))
+    | "stop.acq" => if l.b < 0 then bad () else push (.stAcq t l.b.toNat)
+    | "stop.push" =>
+      toEvents ((l.obj, t) :: own.filter (fun p => p.1 != l.obj)) rest
+        ((some (.stPush t (l.a != 0)), l.raw) :: acc)
+    | "stop.deq" =>
+      match owner l.obj with
+      | some c => push (.stDeq t c (l.a != 0))
+      | none => bad ()
+    | "stop.fin" =>
+      match owner l.obj with
+      | some c => push (.stFin t c (l.a != 0))
+      | none => bad ()
+    | "stop.infin" => push (.stInFin t)
+    | "stop.unlink" => push (.stUnlink t (l.a != 0))
+    | "stop.self" => push (.stSelf t (l.a != 0))
+    | "stop.waited" => push (.stWaited t)
+    | "stop.rsdone" => push (.stRsDone t)
     | "inv.lock" => push (.inv t .lock)
     | "inv.unlock" => push (.inv t .unlock)
     | "inv.set" => push (.inv t (.set (l.a != 0)))
@@ -88,9 +128,16 @@ structure Mon where
   parked : Nat → Bool := fun _ => false         -- inside ag.suspend without a later ag.woke
   owed : Nat → List Nat := fun _ => []          -- notifier ↦ waiters its notify_all must wake
   viol : List String := []
+  -- stop-token waits
+  stopWon : Bool := false                       -- some request_stop set the stop bit (`stop.acq _ 1`)
+  stopRet : Bool := false                       -- a request_stop call has returned
+  cbOwn : List (Nat × Nat) := []                -- callback object ↦ thread that registered it
+  linked : Nat → Bool := fun _ => false         -- the thread's callback is in the list
+  inHand : Nat → Bool := fun _ => false         -- … dequeued by request_stop, finished store not yet done
 
 def isWaitOp (s : String) : Bool :=
-  s == "inv.wait" || s == "inv.waitp" || s == "inv.twait" || s == "inv.twaitp"
+  s == "inv.wait" || s == "inv.waitp" || s == "inv.twait" || s == "inv.twaitp" || s == "inv.swaitp" ||
+  s == "inv.stwaitp"
 
 def uAcq (m : Mon) (t : Nat) : Mon :=
   let m := match m.uOwner with
@@ -106,9 +153,9 @@ def uRel (m : Mon) (t : Nat) : Mon :=
 def monStep (n : Nat) (m : Mon) (l : Line) : Mon :=
   let t := l.tid
   match l.site with
-  | "inv.lock" | "inv.unlock" | "inv.set" | "inv.n1" | "inv.nall" =>
+  | "inv.lock" | "inv.unlock" | "inv.set" | "inv.n1" | "inv.nall" | "inv.stop" =>
     { m with curOp := upd m.curOp t l.site, inWait := upd m.inWait t false }
-  | "inv.wait" | "inv.waitp" | "inv.twait" | "inv.twaitp" =>
+  | "inv.wait" | "inv.waitp" | "inv.twait" | "inv.twaitp" | "inv.swaitp" | "inv.stwaitp" =>
     let m := if m.uOwner != some t then
       { m with viol := s!"thread {t} called wait without owning the user lock (harness error)" :: m.viol } else m
     { m with curOp := upd m.curOp t l.site, inWait := upd m.inWait t true,
@@ -147,8 +194,29 @@ def monStep (n : Nat) (m : Mon) (l : Line) : Mon :=
       [s!"thread {t}: timed wait reported timeout although it was notified before it re-examined its entry"] else []
     let v5 := if op == "inv.twait" && r != 0 && r != 1 then
       [s!"thread {t}: timed wait returned cv_status::error"] else []
-    { m with viol := v0 ++ v1 ++ v2 ++ v3 ++ v4 ++ v5 ++ m.viol, inWait := upd m.inWait t false,
-             owed := upd m.owed t [] }
+    let v6 := if (op == "inv.swaitp" || op == "inv.stwaitp") && (r != 0) != m.flag then
+      [s!"thread {t}: stop-token wait returned {r} but the predicate is {m.flag}"] else []
+    let v7 := if op == "inv.swaitp" && r == 0 && !m.stopWon then
+      [s!"thread {t}: stop-token wait returned false although stop was never requested"] else []
+    let v8 := if (op == "inv.swaitp" || op == "inv.stwaitp") && m.linked t then
+      [s!"thread {t}: stop-token wait returned with its stop callback still registered (dangling callback)"] else []
+    let v9 := if (op == "inv.swaitp" || op == "inv.stwaitp") && m.inHand t then
+      [s!"thread {t}: stop-token wait returned while request_stop was still running its stop callback (dangling callback)"] else []
+    { m with viol := v0 ++ v1 ++ v2 ++ v3 ++ v4 ++ v5 ++ v6 ++ v7 ++ v8 ++ v9 ++ m.viol, inWait := upd m.inWait t false,
+             owed := upd m.owed t [], stopRet := m.stopRet || op == "inv.stop" }
+  | "stop.acq" => if l.b == 1 then { m with stopWon := true } else m
+  | "stop.push" =>
+    { m with cbOwn := (l.obj, t) :: m.cbOwn.filter (fun p => p.1 != l.obj), linked := upd m.linked t true,
+             inHand := upd m.inHand t false }
+  | "stop.unlink" => if l.a != 0 then { m with linked := upd m.linked t false } else m
+  | "stop.deq" =>
+    match (m.cbOwn.find? (fun p => p.1 == l.obj)).map (·.2) with
+    | some c => { m with linked := upd m.linked c false, inHand := upd m.inHand c true }
+    | none => { m with viol := s!"request_stop dequeued a callback object that was never registered" :: m.viol }
+  | "stop.fin" =>
+    match (m.cbOwn.find? (fun p => p.1 == l.obj)).map (·.2) with
+    | some c => { m with inHand := upd m.inHand c false }
+    | none => m
   | "exc" => { m with viol := s!"thread {t}: exception escaped from {m.curOp t}" :: m.viol }
   | _ => m
 
@@ -159,31 +227,123 @@ def monitors (c : Case) (ls : List Line) (n : Nat) : List String :=
       (List.range n).filterMap (fun t =>
         if m.parked t && m.resumedSinceEnq t then
           some s!"thread {t} is parked in wait at quiescence although a notifier resumed it (lost wake-up)"
+        else none) ++
+      (List.range n).filterMap (fun t =>
+        if m.parked t && m.curOp t == "inv.swaitp" && m.stopRet then
+          some s!"thread {t} is parked in a stop-token wait at quiescence although request_stop has returned (lost stop request)"
         else none)
     else []
   let stv := if c.status == "ok" || c.status == "deadlock" then [] else [s!"run ended with status '{c.status}'"]
   m.viol.reverse ++ endv ++ stv
+
+/-! ## Cross-check of the stop-state interface against C14's model
+
+The `stop.*` lines of a C07 log are also replayed through C14's acceptor `Stop.step`
+(`Model/Stop.lean`, the repaired code variant, one stop source): the abstract stop state of
+`Model/CV.lean` is tied to the real code by `CV.step`, and the same real events must be a
+behaviour of C14's detailed model, so C14's theorems (one winner, sticky flag, each callback
+exactly once, callback begins only under construction or after dequeue) hold of these logs.
+Operation boundaries that the cv harness does not log are synthesised: a stop-token wait whose
+`cva.stop0` read false constructs callback number `c` (fresh per wait); `~stop_callback` starts
+at the first `stop.load _ _ 0` of a thread that owns a registered callback and is not inside
+`request_stop`; the callback body (a `notify_all`, no stop-state event) is `cb.begin; cb.end`
+at `stop.post_exec` / `stop.infin`. -/
+structure SI where
+  nextC : Nat := 0
+  cbOf : Nat → Nat := fun _ => 0            -- thread ↦ its current callback number
+  kept : Nat → Bool := fun _ => false       -- … registered (add_callback returned true)
+  dtor : Nat → Bool := fun _ => false       -- … inside ~stop_callback
+  inRs : Nat → Bool := fun _ => false       -- thread is inside request_stop
+  objC : List (Nat × Nat) := []             -- callback object ↦ callback number
+
+partial def toStopEvents : List Line → SI → List (Option Stop.Ev × String) → List (Option Stop.Ev × String)
+  | [], _, acc => acc.reverse
+  | l :: rest, st, acc =>
+    let t := l.tid
+    let c := st.cbOf t
+    let emit (st' : SI) (es : List Stop.Ev) := toStopEvents rest st' ((es.map (fun e => (some e, l.raw))).reverse ++ acc)
+    let bad (_ : Unit) := toStopEvents rest st ((none, l.raw) :: acc)
+    let objc (o : Nat) : Option Nat := (st.objC.find? (fun p => p.1 == o)).map (·.2)
+    let w := StopDrv.decodeWord l.a
+    -- the destructor of a registered callback starts with a plain lock()
+    let pre (_ : Unit) : SI × List Stop.Ev :=
+      if l.b == 0 && !st.inRs t && st.kept t && !st.dtor t then
+        ({ st with dtor := upd st.dtor t true }, [Stop.Ev.inv t (.unreg c)])
+      else (st, [])
+    match l.site with
+    | "inv.stop" => emit { st with inRs := upd st.inRs t true } [.inv t .rs]
+    | "ret" =>
+      if st.inRs t then emit { st with inRs := upd st.inRs t false } [.ret t (l.a != 0)]
+      else toStopEvents rest st acc
+    | "cva.stop0" =>
+      if l.a != 0 then toStopEvents rest st acc
+      else emit { st with nextC := st.nextC + 1, cbOf := upd st.cbOf t st.nextC } [.inv t (.reg st.nextC)]
+    | "stop.load" => let (st', es) := pre (); emit st' (es ++ [.load t w.lk w.rq w.src])
+    | "stop.casfail" => let (st', es) := pre (); emit st' (es ++ [.casFail t w.lk w.rq w.src])
+    | "stop.reload" => let (st', es) := pre (); emit st' (es ++ [.reload t w.lk w.rq w.src])
+    | "stop.acq" => emit st [.acq t]
+    | "stop.push" =>
+      emit { st with kept := upd st.kept t true, objC := (l.obj, c) :: st.objC.filter (fun p => p.1 != l.obj) }
+        [.push t c (l.a != 0), .ret t true]
+    | "stop.infin" => emit st [.cbBegin t c, .cbEnd t c, .inFin t c, .ret t false]
+    | "stop.deq" => match objc l.obj with
+      | some d => emit st [.deq t d (l.a != 0)]
+      | none => bad ()
+    | "stop.pre_exec" => match objc l.obj with
+      | some d => emit st [.preExec t d]
+      | none => bad ()
+    | "stop.post_exec" => match objc l.obj with
+      | some d => emit st [.cbBegin t d, .cbEnd t d]
+      | none => bad ()
+    | "stop.fin" => match objc l.obj with
+      | some d => emit st [.finStore t d (l.a != 0)]
+      | none => bad ()
+    | "stop.rsdone" => emit st [.rsDone t]
+    | "stop.unlink" =>
+      if l.a != 0 then
+        emit { st with kept := upd st.kept t false, dtor := upd st.dtor t false } [.unlink t c true, .ret t true]
+      else emit st [.unlink t c false]
+    | "stop.self" =>
+      if l.a != 0 then
+        emit { st with kept := upd st.kept t false, dtor := upd st.dtor t false } [.selfChk t c true false, .ret t false]
+      else emit st [.selfChk t c false false]
+    | "stop.waited" =>
+      emit { st with kept := upd st.kept t false, dtor := upd st.dtor t false } [.waited t c, .ret t false]
+    | "stop.setrem" => bad ()
+    | _ => toStopEvents rest st acc
+
+/-- `none` = accepted by C14's model (or no stop event in the log). -/
+def stopIface (K : Nat) (ls : List Line) : Option String :=
+  let evs := toStopEvents ls {} []
+  if evs.isEmpty then none else
+  let s0 := Stop.init (3 * K) K (fun a => a % K + 1) true true 1
+  match StopDrv.accept s0 evs 0 with
+  | .error (i, raw) => some s!"C14 model (Stop.step) rejects stop event {i} [{raw}]"
+  | .ok _ => none
 
 def runCase (c : Case) : String :=
   let n := c.threads.length
   let parsed := c.lines.map parseLine
   if parsed.any Option.isNone then s!"case {c.id} reject 0 malformed-line" else
   let ls := parsed.filterMap id
-  let evs := toEvents ls []
+  let evs := toEvents [] ls []
   let mon := monitors c ls n
   let monS := if mon.isEmpty then "monitors ok" else "monitors FAIL: " ++ " | ".intercalate mon
   match accept (CV.init n (c.getNat "flag" != 0)) evs 0 with
   | .error (i, raw) => s!"case {c.id} reject {i} [{raw}] ; {monS}"
   | .ok s =>
-    let classes := (List.range n).map (pcClass s)
-    let fin :=
-      if c.status == "ok" then
-        if classes.all (· == "fin") then "final ok" else "final MISMATCH: run ended but model threads " ++ toString classes
-      else if c.status == "deadlock" then
-        if classes.all (fun x => x == "fin" || x == "blocked" || x == "idle") && s.lock.isNone
-        then s!"final stuck blocked={(classes.filter (· == "blocked")).length} queue={s.queue.length}"
-        else "final MISMATCH: implementation is quiescent but model threads " ++ toString classes
-      else s!"final status {c.status}"
-    s!"case {c.id} accept {evs.length} ; {fin} ; {monS}"
+    match stopIface n ls with
+    | some msg => s!"case {c.id} reject 0 [{msg}] ; {monS}"
+    | none =>
+      let classes := (List.range n).map (pcClass s)
+      let fin :=
+        if c.status == "ok" then
+          if classes.all (· == "fin") then "final ok" else "final MISMATCH: run ended but model threads " ++ toString classes
+        else if c.status == "deadlock" then
+          if classes.all (fun x => x == "fin" || x == "blocked" || x == "idle") && s.lock.isNone
+          then s!"final stuck blocked={(classes.filter (· == "blocked")).length} queue={s.queue.length}"
+          else "final MISMATCH: implementation is quiescent but model threads " ++ toString classes
+        else s!"final status {c.status}"
+      s!"case {c.id} accept {evs.length} ; {fin} ; {monS}"
 
 end Driver.CVDrv
